@@ -277,6 +277,12 @@ def setModelAgrees : Bool :=
     | none, none => Nat.beq (tt.acceptStatus e sh) 2
     | _, _ => false
 
+/-- `Element.get(e.symbol)` is `e`, for every element -/
+def symbolRoundtrip : Bool :=
+  allBelow tt.nE fun e => match tt.elementGet (tt.sym e) with
+    | some e' => Nat.beq e' e
+    | none => false
+
 /-- the first cycle is *not* a fixed point for state `s` (recorded, not a finding) -/
 def firstCycleChanges (s : St) : Bool :=
   let sh := tt.emitShape s
